@@ -43,10 +43,11 @@ def main():
             lv.get("status_at_first_run", ""), ", ".join(lv.get("detected_by", [])) or "-",
             (lv.get("status_now") or lv.get("note") or "").replace("|", "\\|")[:300]))
     seeds = "\n".join(lines)
-    lines = ["| check | spec module | technique |", "|---|---|---|"]
+    lines = ["| check | spec module | technique | assumptions / bounds (level_note) |", "|---|---|---|---|"]
     for path in sorted(glob.glob(os.path.join(VERIF, "checks", "c[0-9]*.py"))):
         mod = importlib.import_module("checks." + os.path.basename(path)[:-3])
-        lines.append("| %s | `%s.tla` | %s |" % (mod.META["property_id"], mod.META["engine"], mod.META["technique"].replace("|", "\\|")))
+        lines.append("| %s | `%s.tla` | %s | %s |" % (mod.META["property_id"], mod.META["engine"], mod.META["technique"].replace("|", "\\|"),
+                                                   mod.META["level_note"].replace("|", "\\|")))
     checks = "\n".join(lines)
     path = os.path.join(VERIF, "DESIGN.md")
     doc = open(path).read()
